@@ -9,7 +9,11 @@ fuel: it yields a value of type τ, or runs out of fuel, or (native configuratio
 zero — the documented faults.  With C02's `arith_agree` this carries over to the VM's handlers, and with
 `nonvoid_returns_all` (C05) every accepted non-void function returns on every path.
 
-Not proved: calls, loops, arrays, structs (soundness of the whole checker), the two code generators and
+`tc_sound_all` / `tc_sound_body` / `never_stuck` — type soundness of the while-language over that fragment:
+declarations, assignment to locals and globals, `if`, `while`, `break`, `continue`, `return`, printing, `assert`,
+expression statements, nested blocks with their scoping.
+
+Not proved: calls, `for`, arrays, structs (soundness of the whole checker), the two code generators and
 the C compiler's acceptance of the generated C.  For those the check is a search on the implementation:
 accepted programs through both pipelines, with the outcome classes of the property as the oracle.
 -/
@@ -177,5 +181,507 @@ theorem tc_sound_expr (cfg : Cfg) (p : Program) (env : Env) (sc : Scope) (loc : 
                   cases hbr : binArith cfg op va vb with
                   | ok v => rw [hbr] at hs; simp only [] at hs; show Safe τ gb _; simp only [hbr]; exact ⟨hs, rfl⟩
                   | error f => rw [hbr] at hs; simp only [] at hs; show Safe τ gb _; simp only [hbr]; exact .inr hs
+
+/-! ### statements: the while-language over the operator fragment -/
+
+/-- a binding of the checker's scope and the run-time entry at the same position -/
+def Rel (b : Binding) (e : String × SVal) : Prop := b.name = e.1 ∧ HasTy e.2 b.ty
+
+/-- the run-time locals mirror the checker's scope, innermost first -/
+inductive Agree : List Binding → List (String × SVal) → Prop
+  | nil : Agree [] []
+  | cons {b : Binding} {e : String × SVal} {sc : List Binding} {loc : List (String × SVal)} :
+      Rel b e → Agree sc loc → Agree (b :: sc) (e :: loc)
+
+theorem Agree.length_eq {sc : List Binding} {loc : List (String × SVal)} (h : Agree sc loc) : sc.length = loc.length := by
+  induction h with
+  | nil => rfl
+  | cons _ _ ih => simp [ih]
+
+theorem agree_find {bs : List Binding} {l : List (String × SVal)} (h : Agree bs l) (x : String) :
+    (∀ b, bs.find? (·.name == x) = some b → ∃ v, lookup? l x = some v ∧ HasTy v b.ty) ∧
+    (bs.find? (·.name == x) = none → lookup? l x = none) := by
+  induction h with
+  | nil => simp [lookup?]
+  | @cons b e bs' l' hbe _ ih =>
+    obtain ⟨hn, ht⟩ := hbe
+    simp only [List.find?_cons, lookup?]
+    by_cases hx : b.name == x
+    · have hx' : (e.1 == x) = true := by rw [← hn]; exact hx
+      simp only [hx, hx']
+      constructor
+      · intro b' hb'; cases hb'; exact ⟨e.2, rfl, ht⟩
+      · intro h'; cases h'
+    · have hx' : (e.1 == x) = false := by rw [← hn]; simpa using hx
+      simp only [hx, hx']
+      exact ih
+
+theorem agree_update {bs : List Binding} {l : List (String × SVal)} (h : Agree bs l) (x : String) (v : SVal) :
+    (∀ b, bs.find? (·.name == x) = some b → HasTy v b.ty → ∃ l', update l x v = some l' ∧ Agree bs l') ∧
+    (bs.find? (·.name == x) = none → update l x v = none) := by
+  induction h with
+  | nil => simp [update]
+  | @cons b e bs' l' hbe htl ih =>
+    obtain ⟨hn, ht⟩ := hbe
+    obtain ⟨y, w⟩ := e
+    simp only at hn
+    simp only [List.find?_cons, update]
+    by_cases hx : b.name == x
+    · have hx' : (y == x) = true := by rw [← hn]; exact hx
+      simp only [hx, hx', if_true]
+      constructor
+      · intro b' hb' hv; cases hb'; exact ⟨_, rfl, Agree.cons ⟨hn, hv⟩ htl⟩
+      · intro h'; cases h'
+    · have hx' : (y == x) = false := by rw [← hn]; simpa using hx
+      simp only [hx, hx', Bool.false_eq_true, if_false]
+      constructor
+      · intro b' hb' hv
+        obtain ⟨l2, h1, h2⟩ := ih.1 b' hb' hv
+        exact ⟨(y, w) :: l2, by simp [h1], Agree.cons ⟨hn, ht⟩ h2⟩
+      · intro h'; simp [ih.2 h']
+
+/-- globals mirror the checker's global table -/
+def GA (env : Env) (g : GState) : Prop := Agree env.globals g.globals
+
+theorem envOk_of_agree {env : Env} {sc : Scope} {loc : Locals} {g : GState} (ha : Agree sc loc) (hg : GA env g) :
+    EnvOk env sc loc g := by
+  intro x b hf
+  unfold findVar at hf
+  cases hs : sc.find? (·.name == x) with
+  | some b' =>
+    rw [hs] at hf; cases hf
+    obtain ⟨v, hv, ht⟩ := (agree_find ha x).1 b hs
+    exact ⟨v, by simp [hv], ht⟩
+  | none =>
+    rw [hs] at hf
+    have hl := (agree_find ha x).2 hs
+    obtain ⟨v, hv, ht⟩ := (agree_find hg x).1 b hf
+    exact ⟨v, by simp [hl, hv], ht⟩
+
+/-- the statement fragment: declarations, assignment, conditionals, `while`, `break`, `continue`, `return`,
+    printing, `assert`, expression statements and nested blocks over expressions of the operator fragment -/
+inductive FragS : Stmt → Prop
+  | letS (x : String) (m : Bool) (ty : Ty) (e : Expr) : Pure e → FragS (.letS x m ty e)
+  | setS (x : String) (e : Expr) : Pure e → FragS (.setS x e)
+  | if1 (c : Expr) (t : List Stmt) (b : Bool) : Pure c → (∀ s ∈ t, FragS s) → FragS (.ifS c t none b)
+  | if2 (c : Expr) (t eb : List Stmt) (b : Bool) : Pure c → (∀ s ∈ t, FragS s) → (∀ s ∈ eb, FragS s) → FragS (.ifS c t (some eb) b)
+  | whileS (c : Expr) (b : List Stmt) : Pure c → (∀ s ∈ b, FragS s) → FragS (.whileS c b)
+  | ret0 : FragS (.ret none)
+  | ret1 (e : Expr) : Pure e → FragS (.ret (some e))
+  | brk : FragS .breakS
+  | cont : FragS .continueS
+  | print (ln : Bool) (e : Expr) : Pure e → FragS (.printS ln e)
+  | assert (e : Expr) : Pure e → FragS (.assertS e)
+  | expr (e : Expr) : Pure e → FragS (.exprS e)
+  | block (ss : List Stmt) : (∀ s ∈ ss, FragS s) → FragS (.block ss)
+
+/-- how a statement may leave: `break` / `continue` only inside a loop, `return` only with a value of the
+    function's return type (or nothing, in a void function) -/
+def FlowOk (ret : Ty) (inLoop : Bool) : Flow → Prop
+  | .next => True
+  | .brk => inLoop = true
+  | .cont => inLoop = true
+  | .ret v => (v = .void ∧ tyEq ret .void = true) ∨ HasTy v ret
+
+/-- the faults the property permits: budget, division by zero (native configuration), failed assertion -/
+def GoodErr (f : Fault) : Prop := f = .fuel ∨ f = .divZero ∨ f = .assertFail
+
+/-- outcome of a statement (sequence) started in agreement with scope `sc0`: it ends in agreement with an
+    extension `ext ++ sc0` (`P ext`), or with a permitted fault - never a type error, an undefined variable or
+    function, an out-of-bounds or unsupported operation -/
+def ResOk (env : Env) (ret : Ty) (inLoop : Bool) (P : Locals → Prop) : Except (Fault × GState) (Flow × Locals × GState) → Prop
+  | .ok (fl, loc', g') => P loc' ∧ GA env g' ∧ FlowOk ret inLoop fl
+  | .error (f, _) => GoodErr f
+
+theorem pure_not_emptyArr {e : Expr} (h : Pure e) : ∀ ty : Ty,
+    (match e with
+      | .arrayLit [] => (match ty with | .arr _ => true | _ => false)
+      | _ => (match tcExpr env sc e with | some te => tyEq te ty | none => false))
+    = (match tcExpr env sc e with | some te => tyEq te ty | none => false) := by
+  intro ty; cases h <;> rfl
+
+theorem flowOk_loop {ret : Ty} {inLoop : Bool} {fl : Flow} (h : FlowOk ret true fl) (h1 : fl ≠ .brk) (h2 : fl ≠ .cont) :
+    FlowOk ret inLoop fl := by
+  cases fl <;> simp_all [FlowOk]
+
+theorem agree_drop_ext {ext sc : Scope} {loc' : Locals} (h : Agree (ext ++ sc) loc') : Agree sc (loc'.drop ext.length) := by
+  induction ext generalizing loc' with
+  | nil => simpa using h
+  | cons b r ih =>
+    cases h with
+    | cons _ htl => simpa using ih htl
+
+theorem agree_drop {ext sc : Scope} {loc' : Locals} (h : Agree (ext ++ sc) loc') (n : Nat) (hn : n = sc.length) :
+    Agree sc (loc'.drop (loc'.length - n)) := by
+  subst hn
+  have hl : loc'.length = ext.length + sc.length := by
+    have := h.length_eq; simp at this; omega
+  have : loc'.length - sc.length = ext.length := by omega
+  rw [this]
+  exact agree_drop_ext h
+
+theorem tcStmt_let {env : Env} {ret : Ty} {inLoop : Bool} {sc : Scope} {x : String} {m : Bool} {ty : Ty} {e : Expr} (hp : Pure e) :
+    tcStmt env ret inLoop sc (.letS x m ty e) =
+      (match tcExpr env sc e with
+        | some te => if tyEq te ty then some (⟨x, ty, m⟩ :: sc) else none
+        | none => none) := by
+  cases hp <;> simp only [tcStmt] <;> (split <;> simp_all)
+
+theorem tcStmt_ext {env : Env} {ret : Ty} {inLoop : Bool} {sc sc' : Scope} {s : Stmt} (hf : FragS s)
+    (h : tcStmt env ret inLoop sc s = some sc') : sc' = sc ∨ ∃ b, sc' = b :: sc := by
+  cases hf
+  case letS x m ty e hp =>
+    rw [tcStmt_let hp] at h
+    (repeat' split at h) <;> simp at h
+    exact Or.inr ⟨_, h.symm⟩
+  all_goals simp only [tcStmt] at h
+  case setS x e hp => (repeat' split at h) <;> simp at h <;> exact Or.inl h.symm
+  case if1 c t b hp ht => (repeat' split at h) <;> simp at h <;> exact Or.inl h.symm
+  case if2 c t eb b hp ht he => (repeat' split at h) <;> simp at h <;> exact Or.inl h.symm
+  case whileS c b hp hb => (repeat' split at h) <;> simp at h <;> exact Or.inl h.symm
+  case ret0 => split at h <;> simp at h; exact Or.inl h.symm
+  case ret1 e hp => (repeat' split at h) <;> simp at h <;> exact Or.inl h.symm
+  case brk => split at h <;> simp at h; exact Or.inl h.symm
+  case cont => split at h <;> simp at h; exact Or.inl h.symm
+  case print ln e hp => cases ht : tcExpr env sc e <;> simp [ht] at h; exact Or.inl h.symm
+  case assert e hp => (repeat' split at h) <;> simp at h <;> exact Or.inl h.symm
+  case expr e hp => cases ht : tcExpr env sc e <;> simp [ht] at h; exact Or.inl h.symm
+  case block ss hs => split at h <;> simp at h; exact Or.inl h.symm
+
+theorem goodErr_of_safe {τ : Ty} {g : GState} {f : Fault} {g' : GState} (h : Safe τ g (.error (f, g'))) : GoodErr f := by
+  simp only [Safe] at h
+  rcases h with h | h
+  · exact Or.inl h
+  · exact Or.inr (Or.inl h)
+
+theorem ga_out {env : Env} {g : GState} (h : GA env g) (o : Bytes) : GA env { g with out := o } := h
+
+/-- **type soundness of the while-language over the operator fragment** (statements, blocks, statement sequences
+    and loops, by induction on the evaluation budget): a statement the checker accepts, executed in any state
+    that mirrors the checker's scope, never ends in a type error, an undefined variable or function, an
+    out-of-bounds or unsupported operation; it ends in a state that mirrors the checker's resulting scope, leaves
+    by `break` / `continue` only inside a loop and by `return` only with a value of the declared return type -/
+theorem tc_sound_all (cfg : Cfg) (p : Program) (env : Env) (ret : Ty) : ∀ fuel : Nat,
+    (∀ (s : Stmt) (inLoop : Bool) (sc sc' : Scope) (loc : Locals) (g : GState), FragS s →
+      tcStmt env ret inLoop sc s = some sc' → Agree sc loc → GA env g →
+      ResOk env ret inLoop (fun l => Agree sc' l) (execStmt cfg p fuel loc g s)) ∧
+    (∀ (ss : List Stmt) (inLoop : Bool) (sc : Scope) (loc : Locals) (g : GState), (∀ s ∈ ss, FragS s) →
+      tcBlock env ret inLoop sc ss = true → Agree sc loc → GA env g →
+      ResOk env ret inLoop (fun l => Agree sc l) (execBlock cfg p fuel loc g ss)) ∧
+    (∀ (ss : List Stmt) (inLoop : Bool) (sc : Scope) (loc : Locals) (g : GState), (∀ s ∈ ss, FragS s) →
+      tcBlock env ret inLoop sc ss = true → Agree sc loc → GA env g →
+      ResOk env ret inLoop (fun l => ∃ ext, Agree (ext ++ sc) l) (execStmts cfg p fuel loc g ss)) ∧
+    (∀ (c : Expr) (b : List Stmt) (inLoop : Bool) (sc : Scope) (loc : Locals) (g : GState), Pure c → (∀ s ∈ b, FragS s) →
+      tcExpr env sc c = some .bool → tcBlock env ret true sc b = true → Agree sc loc → GA env g →
+      ResOk env ret inLoop (fun l => Agree sc l) (execWhile cfg p fuel loc g c b)) := by
+  intro fuel
+  induction fuel with
+  | zero =>
+    refine ⟨?_, ?_, ?_, ?_⟩ <;> intros <;> simp [execStmt, execBlock, execStmts, execWhile, ResOk, GoodErr]
+  | succ n ih =>
+    obtain ⟨ih1, ih2, ih3, ih4⟩ := ih
+    -- evaluating an expression of the fragment that the checker typed
+    have hev : ∀ (sc : Scope) (loc : Locals) (g : GState) (e : Expr) (τ : Ty), Agree sc loc → GA env g → Pure e → tcExpr env sc e = some τ →
+        (∃ v, evalExpr cfg p n loc g e = .ok (v, g) ∧ HasTy v τ) ∨ (∃ f g', evalExpr cfg p n loc g e = .error (f, g') ∧ GoodErr f) := by
+      intro sc loc g e τ ha hg hp ht
+      have hs := tc_sound_expr cfg p env sc loc g (envOk_of_agree ha hg) n e τ hp ht
+      cases hr : evalExpr cfg p n loc g e with
+      | error er => obtain ⟨f, g'⟩ := er; rw [hr] at hs; exact Or.inr ⟨f, g', rfl, goodErr_of_safe hs⟩
+      | ok r =>
+        obtain ⟨v, g'⟩ := r
+        rw [hr] at hs
+        simp only [Safe] at hs
+        obtain ⟨hv, rfl⟩ := hs
+        exact Or.inl ⟨v, rfl, hv⟩
+    refine ⟨?_, ?_, ?_, ?_⟩
+    · -- one statement
+      intro s inLoop sc sc' loc g hf ht ha hg
+      cases hf with
+      | letS x m ty e hp =>
+        rw [tcStmt_let hp] at ht
+        cases hte : tcExpr env sc e with
+        | none => simp [hte] at ht
+        | some te =>
+          simp only [hte] at ht
+          split at ht
+          · rename_i hty
+            cases ht
+            simp only [execStmt]
+            rcases hev sc loc g e te ha hg hp hte with ⟨v, he, hv⟩ | ⟨f, g', he, hgood⟩
+            · rw [he]; exact ⟨Agree.cons ⟨rfl, hasTy_of_tyEq hv hty⟩ ha, hg, trivial⟩
+            · rw [he]; exact hgood
+          · cases ht
+      | setS x e hp =>
+        simp only [tcStmt] at ht
+        cases hfv : findVar sc env.globals x with
+        | none => simp [hfv] at ht
+        | some b =>
+          cases hte : tcExpr env sc e with
+          | none => simp [hfv, hte] at ht
+          | some te =>
+            simp only [hfv, hte] at ht
+            split at ht
+            · rename_i hc
+              cases ht
+              simp only [Bool.and_eq_true] at hc
+              simp only [execStmt]
+              rcases hev sc loc g e te ha hg hp hte with ⟨v, he, hv⟩ | ⟨f, g', he, hgood⟩
+              · rw [he]
+                simp only
+                have hvb : HasTy v b.ty := hasTy_of_tyEq hv hc.2
+                unfold findVar at hfv
+                cases hs : sc.find? (·.name == x) with
+                | some b' =>
+                  rw [hs] at hfv; cases hfv
+                  obtain ⟨l2, h1, h2⟩ := (agree_update ha x v).1 b hs hvb
+                  rw [h1]; exact ⟨h2, hg, trivial⟩
+                | none =>
+                  rw [hs] at hfv
+                  rw [(agree_update ha x v).2 hs]
+                  obtain ⟨gl, h1, h2⟩ := (agree_update hg x v).1 b hfv hvb
+                  simp only [h1]
+                  exact ⟨ha, h2, trivial⟩
+              · rw [he]; exact hgood
+            · cases ht
+      | if1 c t bf hp hft =>
+        simp only [tcStmt] at ht
+        cases hte : tcExpr env sc c with
+        | none => simp [hte] at ht
+        | some te =>
+          cases te <;> simp [hte, tcElse] at ht
+          obtain ⟨hb, rfl⟩ := ht
+          simp only [execStmt]
+          rcases hev sc loc g c .bool ha hg hp hte with ⟨v, he, hv⟩ | ⟨f, g', he, hgood⟩
+          · rw [he]
+            cases hv with
+            | bool bv =>
+              cases bv
+              · exact ⟨ha, hg, trivial⟩
+              · exact ih2 t inLoop sc loc g hft hb ha hg
+          · rw [he]; exact hgood
+      | if2 c t eb bf hp hft hfe =>
+        simp only [tcStmt] at ht
+        cases hte : tcExpr env sc c with
+        | none => simp [hte] at ht
+        | some te =>
+          cases te <;> simp [hte, tcElse] at ht
+          obtain ⟨⟨hb, hb2⟩, rfl⟩ := ht
+          simp only [execStmt]
+          rcases hev sc loc g c .bool ha hg hp hte with ⟨v, he, hv⟩ | ⟨f, g', he, hgood⟩
+          · rw [he]
+            cases hv with
+            | bool bv =>
+              cases bv
+              · exact ih2 eb inLoop sc loc g hfe hb2 ha hg
+              · exact ih2 t inLoop sc loc g hft hb ha hg
+          · rw [he]; exact hgood
+      | whileS c b hp hfb =>
+        simp only [tcStmt] at ht
+        cases hte : tcExpr env sc c with
+        | none => simp [hte] at ht
+        | some te =>
+          cases te <;> simp [hte] at ht
+          obtain ⟨hb, rfl⟩ := ht
+          simp only [execStmt]
+          exact ih4 c b inLoop sc loc g hp hfb hte hb ha hg
+      | ret0 =>
+        simp only [tcStmt] at ht
+        split at ht
+        · rename_i hv; cases ht
+          simp only [execStmt]
+          exact ⟨ha, hg, Or.inl ⟨rfl, hv⟩⟩
+        · cases ht
+      | ret1 e hp =>
+        simp only [tcStmt] at ht
+        cases hte : tcExpr env sc e with
+        | none => simp [hte] at ht
+        | some te =>
+          simp only [hte] at ht
+          split at ht
+          · rename_i hty; cases ht
+            simp only [execStmt]
+            rcases hev sc loc g e te ha hg hp hte with ⟨v, he, hv⟩ | ⟨f, g', he, hgood⟩
+            · rw [he]; exact ⟨ha, hg, Or.inr (hasTy_of_tyEq hv hty)⟩
+            · rw [he]; exact hgood
+          · cases ht
+      | brk =>
+        simp only [tcStmt] at ht
+        split at ht
+        · rename_i hl; cases ht; simp only [execStmt]; exact ⟨ha, hg, hl⟩
+        · cases ht
+      | cont =>
+        simp only [tcStmt] at ht
+        split at ht
+        · rename_i hl; cases ht; simp only [execStmt]; exact ⟨ha, hg, hl⟩
+        · cases ht
+      | print ln e hp =>
+        simp only [tcStmt] at ht
+        cases hte : tcExpr env sc e with
+        | none => simp [hte] at ht
+        | some te =>
+          simp [hte] at ht; subst ht
+          simp only [execStmt]
+          rcases hev sc loc g e te ha hg hp hte with ⟨v, he, hv⟩ | ⟨f, g', he, hgood⟩
+          · rw [he]; exact ⟨ha, ga_out hg _, trivial⟩
+          · rw [he]; exact hgood
+      | assert e hp =>
+        simp only [tcStmt] at ht
+        cases hte : tcExpr env sc e with
+        | none => simp [hte] at ht
+        | some te =>
+          cases te <;> simp [hte] at ht
+          subst ht
+          simp only [execStmt]
+          rcases hev sc loc g e .bool ha hg hp hte with ⟨v, he, hv⟩ | ⟨f, g', he, hgood⟩
+          · rw [he]
+            cases hv with
+            | bool bv =>
+              cases bv
+              · exact Or.inr (Or.inr rfl)
+              · exact ⟨ha, hg, trivial⟩
+          · rw [he]; exact hgood
+      | expr e hp =>
+        simp only [tcStmt] at ht
+        cases hte : tcExpr env sc e with
+        | none => simp [hte] at ht
+        | some te =>
+          simp [hte] at ht; subst ht
+          simp only [execStmt]
+          rcases hev sc loc g e te ha hg hp hte with ⟨v, he, hv⟩ | ⟨f, g', he, hgood⟩
+          · rw [he]; exact ⟨ha, hg, trivial⟩
+          · rw [he]; exact hgood
+      | block ss hfs =>
+        simp only [tcStmt] at ht
+        split at ht
+        · rename_i hb; cases ht
+          simp only [execStmt]
+          exact ih2 ss inLoop sc loc g hfs hb ha hg
+        · cases ht
+    · -- a block
+      intro ss inLoop sc loc g hfs hb ha hg
+      simp only [execBlock]
+      have h3 := ih3 ss inLoop sc loc g hfs hb ha hg
+      cases hr : execStmts cfg p n loc g ss with
+      | error er => obtain ⟨f, g'⟩ := er; rw [hr] at h3; exact h3
+      | ok r =>
+        obtain ⟨fl, loc', g1⟩ := r
+        rw [hr] at h3
+        obtain ⟨⟨ext, hext⟩, hg1, hfl⟩ := h3
+        exact ⟨agree_drop hext loc.length ha.length_eq.symm, hg1, hfl⟩
+    · -- a statement sequence
+      intro ss inLoop sc loc g hfs hb ha hg
+      cases ss with
+      | nil => simp only [execStmts]; exact ⟨⟨[], ha⟩, hg, trivial⟩
+      | cons s r =>
+        simp only [tcBlock] at hb
+        cases hts : tcStmt env ret inLoop sc s with
+        | none => simp [hts] at hb
+        | some sc1 =>
+          simp only [hts] at hb
+          have hfs0 : FragS s := hfs s (by simp)
+          have hfr : ∀ x ∈ r, FragS x := fun x hx => hfs x (by simp [hx])
+          have h1 := ih1 s inLoop sc sc1 loc g hfs0 hts ha hg
+          have hsc1 : ∃ e0, sc1 = e0 ++ sc := by
+            rcases tcStmt_ext hfs0 hts with rfl | ⟨b, rfl⟩
+            · exact ⟨[], rfl⟩
+            · exact ⟨[b], rfl⟩
+          obtain ⟨e0, rfl⟩ := hsc1
+          simp only [execStmts]
+          cases hr : execStmt cfg p n loc g s with
+          | error er => obtain ⟨f, g'⟩ := er; rw [hr] at h1; exact h1
+          | ok res =>
+            obtain ⟨fl, loc1, g1⟩ := res
+            rw [hr] at h1
+            obtain ⟨ha1, hg1, hfl⟩ := h1
+            cases fl with
+            | next =>
+              simp only
+              have h3 := ih3 r inLoop (e0 ++ sc) loc1 g1 hfr hb ha1 hg1
+              cases hr2 : execStmts cfg p n loc1 g1 r with
+              | error er => obtain ⟨f, g'⟩ := er; rw [hr2] at h3; exact h3
+              | ok res2 =>
+                obtain ⟨fl2, loc2, g2⟩ := res2
+                rw [hr2] at h3
+                obtain ⟨⟨ext, hext⟩, hg2, hfl2⟩ := h3
+                exact ⟨⟨ext ++ e0, by simpa [List.append_assoc] using hext⟩, hg2, hfl2⟩
+            | brk => exact ⟨⟨e0, ha1⟩, hg1, hfl⟩
+            | cont => exact ⟨⟨e0, ha1⟩, hg1, hfl⟩
+            | ret v => exact ⟨⟨e0, ha1⟩, hg1, hfl⟩
+    · -- a loop
+      intro c b inLoop sc loc g hp hfb hte hb ha hg
+      simp only [execWhile]
+      rcases hev sc loc g c .bool ha hg hp hte with ⟨v, he, hv⟩ | ⟨f, g', he, hgood⟩
+      · rw [he]
+        cases hv with
+        | bool bv =>
+          cases bv
+          · exact ⟨ha, hg, trivial⟩
+          · simp only
+            have h2 := ih2 b true sc loc g hfb hb ha hg
+            cases hr : execBlock cfg p n loc g b with
+            | error er => obtain ⟨f, g'⟩ := er; rw [hr] at h2; exact h2
+            | ok res =>
+              obtain ⟨fl, loc1, g2⟩ := res
+              rw [hr] at h2
+              obtain ⟨ha1, hg2, hfl⟩ := h2
+              cases fl with
+              | brk => exact ⟨ha1, hg2, trivial⟩
+              | ret v => exact ⟨ha1, hg2, hfl⟩
+              | next => exact ih4 c b inLoop sc loc1 g2 hp hfb hte hb ha1 hg2
+              | cont => exact ih4 c b inLoop sc loc1 g2 hp hfb hte hb ha1 hg2
+      · rw [he]; exact hgood
+
+/-- **a function body the checker accepts never gets stuck**: executed with arguments of the declared types (any
+    state that mirrors the parameter scope and the global table), for any evaluation budget, the body of the
+    while-language ends by falling through or by `return` with a value of the declared return type, or in one of the
+    permitted faults (budget, division by zero in the native configuration, failed assertion) -/
+theorem tc_sound_body (cfg : Cfg) (p : Program) (env : Env) (ret : Ty) (sc : Scope) (body : List Stmt)
+    (hf : ∀ s ∈ body, FragS s) (ht : tcBlock env ret false sc body = true)
+    (loc : Locals) (g : GState) (ha : Agree sc loc) (hg : GA env g) (fuel : Nat) :
+    ResOk env ret false (fun l => Agree sc l) (execBlock cfg p fuel loc g body) :=
+  (tc_sound_all cfg p env ret fuel).2.1 body false sc loc g hf ht ha hg
+
+/-- ... in particular: no type error, no undefined variable or function, no out-of-bounds or unsupported operation,
+    no `break` / `continue` escaping the function -/
+theorem never_stuck (cfg : Cfg) (p : Program) (env : Env) (ret : Ty) (sc : Scope) (body : List Stmt)
+    (hf : ∀ s ∈ body, FragS s) (ht : tcBlock env ret false sc body = true)
+    (loc : Locals) (g : GState) (ha : Agree sc loc) (hg : GA env g) (fuel : Nat) :
+    (∀ f g', execBlock cfg p fuel loc g body = .error (f, g') →
+        f ≠ .typeError ∧ f ≠ .undefinedVar ∧ f ≠ .undefinedFn ∧ f ≠ .oob ∧ f ≠ .unsupported) ∧
+    (∀ fl loc' g', execBlock cfg p fuel loc g body = .ok (fl, loc', g') → fl ≠ .brk ∧ fl ≠ .cont) := by
+  have h := tc_sound_body cfg p env ret sc body hf ht loc g ha hg fuel
+  constructor
+  · intro f g' he
+    rw [he] at h
+    rcases h with h | h | h <;> subst h <;> simp
+  · intro fl loc' g' he
+    rw [he] at h
+    obtain ⟨_, _, hfl⟩ := h
+    cases fl <;> simp_all [FlowOk]
+
+/- non-vacuity: `let mut i: int = 0; while (< i 3) { set i (+ i 1); if (== i 2) { continue } }; return i` is in the
+   fragment, accepted by the checker at return type int, and the empty state mirrors the empty scope -/
+def loopBody : List Stmt :=
+  [.letS "i" true .int (.num 0),
+   .whileS (.prefixOp .T_LT [.ident "i", .num 3])
+     [.setS "i" (.prefixOp .T_PLUS [.ident "i", .num 1]),
+      .ifS (.prefixOp .T_EQ [.ident "i", .num 2]) [.continueS] none false],
+   .ret (some (.ident "i"))]
+
+example : tcBlock {} .int false [] loopBody = true := by decide
+example : ∀ s ∈ loopBody, FragS s := by
+  intro s hs
+  simp only [loopBody, List.mem_cons, List.mem_nil_iff, or_false] at hs
+  rcases hs with rfl | rfl | rfl
+  · exact .letS _ _ _ _ (.num 0)
+  · refine .whileS _ _ (.bin _ _ _ (.ident _) (.num _)) ?_
+    intro s hs
+    simp only [List.mem_cons, List.mem_nil_iff, or_false] at hs
+    rcases hs with rfl | rfl
+    · exact .setS _ _ (.bin _ _ _ (.ident _) (.num _))
+    · refine .if1 _ _ _ (.bin _ _ _ (.ident _) (.num _)) ?_
+      intro s hs; simp at hs; subst hs; exact .cont
+  · exact .ret1 _ (.ident _)
+example : Agree [] [] ∧ GA {} {} := ⟨.nil, .nil⟩
 
 end NanoVerif.C04
